@@ -144,6 +144,8 @@ func inodeOf(dir string, p int) uint64 {
 	return 0
 }
 
+var rePos = regexp.MustCompile(`\[L:\d+ C:\d+\] `)
+
 var reChanged = regexp.MustCompile(`(\d+) records? (?:inserted|updated|deleted|replaced) on "[^"]*f(\d)\.csv"`)
 
 func tempState(pr *hc.Proc, tr *tracker) string {
@@ -268,7 +270,7 @@ func blockTemps(g *hc.Gen, o *hc.Out, rounds int) {
 			pr.Close()
 			got := out
 			if err != nil {
-				got += "\nERROR: " + err.Error()
+				got += "\nERROR: " + rePos.ReplaceAllString(err.Error(), "") // the position of the failing statement depends on the wrapping text
 			}
 			// the notices name nothing placement-specific; lines are compared as they are
 			if i == 0 {
